@@ -465,7 +465,7 @@ func (e *btEnv) bytesOnce(n int, est uint32, small int) {
 	if err := atree.VerifyArray(a, addr, ty, btTIC, hx.HashInput, true); err != nil {
 		e.violation("ByteSliceToByteArray: VerifyArray: " + err.Error())
 	}
-	if err := atree.VerifyArraySerialization(a, hx.DecMode(), hx.EncMode(), btDecodeStorable, btDecodeTypeInfo, btCompareStorable); err != nil {
+	if err := e.guardedVerifySerialization("VerifyArraySerialization", func() error { return atree.VerifyArraySerialization(a, hx.DecMode(), hx.EncMode(), btDecodeStorable, btDecodeTypeInfo, btCompareStorable) }); err != nil {
 		e.violation("ByteSliceToByteArray: VerifyArraySerialization: " + err.Error())
 	}
 	e.health("ByteSliceToByteArray (boundary)")
